@@ -293,6 +293,25 @@ pub fn spaces(tier: Tier) -> Vec<Space<'static>> {
             acc.eval();
             let nb = to_num(b);
             let exp = num_cmp(&a, b);
+            // every operand shape the crate implements the operators for: owned/owned, &/owned, owned/&
+            let shapes = guard(|| {
+                let (ra, rb): (&Number, &Number) = (&na, &nb);
+                (
+                    <&Number as PartialOrd<Number>>::partial_cmp(&ra, &nb),
+                    <Number as PartialOrd<&Number>>::partial_cmp(&na, &rb),
+                    <&Number as PartialEq<Number>>::eq(&ra, &nb),
+                    <Number as PartialEq<&Number>>::eq(&na, &rb),
+                    ra < nb, na > rb,
+                )
+            });
+            match &shapes {
+                Ok((p1, p2, e1, e2, lt, gt)) => {
+                    if *p1 != Some(exp) || *p2 != Some(exp) || *e1 != (exp == Ordering::Equal) || *e2 != (exp == Ordering::Equal) || *lt != (exp == Ordering::Less) || *gt != (exp == Ordering::Greater) {
+                        acc.vio("order:reference-operand-shapes-differ-from-exact-value", || json!({"a": format!("{:?}", a), "b": format!("{:?}", b), "observed": format!("{:?}", shapes), "expected": format!("{:?}", exp)}));
+                    }
+                }
+                Err(p) => acc.vio(&format!("order:{}", panic_class(p)), || json!({"a": format!("{:?}", a), "b": format!("{:?}", b)})),
+            }
             let r = guard(|| (na.cmp(&nb), na == nb, na.partial_cmp(&nb)));
             match r {
                 Err(p) => acc.vio(&format!("order:{}", panic_class(&p)), || json!({"a": format!("{:?}", a), "b": format!("{:?}", b)})),
@@ -347,6 +366,23 @@ pub fn spaces(tier: Tier) -> Vec<Space<'static>> {
                 match r {
                     Ok((Ok(x), Ok(y))) if x == exp && y == exp => {}
                     other => acc.vio("order:compare-on-number-documents-differs-from-exact-value", || json!({"a": format!("{:?}", a), "b": format!("{:?}", b), "expected": format!("{:?}", exp), "observed": format!("{:?}", other.map_err(|p| panic_class(&p)))})),
+                }
+            }
+        }));
+        // numbers that are equal have equal comparable keys (the converse is a recorded C14 finding)
+        let d5 = docs.clone();
+        sp.push(Space::new("equal numbers of B64 have equal comparable keys", n as u64, move |i, acc| {
+            let a = b64[i as usize];
+            let ka = guard(|| { let mut k = vec![]; jsonb::convert_to_comparable(&d5[i as usize].0, &mut k); k });
+            for (j, b) in b64.iter().enumerate() {
+                if num_cmp(&a, b) != Ordering::Equal {
+                    continue;
+                }
+                acc.eval();
+                let kb = guard(|| { let mut k = vec![]; jsonb::convert_to_comparable(&d5[j].0, &mut k); k });
+                match (&ka, &kb) {
+                    (Ok(x), Ok(y)) if x == y => {}
+                    _ => acc.vio("order:equal-numbers-have-different-comparable-keys", || json!({"a": format!("{:?}", a), "b": format!("{:?}", b)})),
                 }
             }
         }));
